@@ -20,6 +20,7 @@ package stream
 import (
 	"context"
 	"fmt"
+	"math"
 	"time"
 
 	"go.uber.org/multierr"
@@ -73,12 +74,18 @@ func (ud *unresolvedDistributed) Analyze(s logical.Schema) (logical.Plan, error)
 	if limit == 0 {
 		limit = defaultLimit
 	}
+	// Every node must return its first offset+limit rows. The sum saturates: a wrapped
+	// uint32 would ask the nodes for a tiny window (e.g. limit=MaxUint32 with an offset).
+	nodeLimit := limit + ud.originalQuery.Offset
+	if nodeLimit < limit {
+		nodeLimit = math.MaxUint32
+	}
 	temp := &streamv1.QueryRequest{
 		Projection: ud.originalQuery.Projection,
 		Name:       ud.originalQuery.Name,
 		Groups:     ud.originalQuery.Groups,
 		Criteria:   ud.originalQuery.Criteria,
-		Limit:      limit + ud.originalQuery.Offset,
+		Limit:      nodeLimit,
 		OrderBy:    ud.originalQuery.OrderBy,
 	}
 	if ud.originalQuery.OrderBy == nil {
